@@ -146,6 +146,97 @@ def build(ctx):
     ctx.validated += 1
     ctx.validation_detail.append({'cli_findings_on_this_tree': f})
 
+    part_root_only(ctx)
+
+
+# ======================================================================================= target selection without -p / --all
+KF_SUBDIR = 'C18/get_targets_root_only/member-subdirectory-in-a-multi-package-workspace-finds-no-targets'
+
+
+def part_root_only(ctx):
+    """get_targets_root_only over a harness `cargo metadata` result: k packages (1..3) with two targets each; every path value is an
+    uninterpreted text, canonicalize succeeds and is the identity (canonical, existing paths). Symbolic: the working directory, its
+    `Cargo.toml`, the workspace root, which of them coincide. Specification (completeness for the current package): the package whose
+    manifest cargo picks for the working directory (the nearest Cargo.toml at or above it, the symbolic M) gets all its targets."""
+    from mirsym.intrinsics import str_expr, NONE
+    eng = ctx.engine(('cargo-fmt',), loop_bound=16)
+    name = eng.find('get_targets_root_only', free=True)
+    rp = make_replay(ctx)
+    K = 2 if ctx.tier == 'quick' else 3
+    from mirsym.engine import StrSort
+    for k in range(1, K + 1):
+        eng.stubs = []
+        eng.lenient = True
+        eng.inline_only = [re.compile(r'get_targets_root_only|^add_targets$')]
+        st = State()
+        pk = [Opaque('cargo_metadata::Package', 'pkg%d' % i) for i in range(k)]
+
+        def stable_path(e, s_, b, t):
+            return StrVal(e=z3.Const('path:' + re.sub(r'!\d+$', '', b), StrSort))
+        eng.type_models = [
+            (re.compile(r'^(std::vec::)?Vec<(cargo_metadata::)?Package>$'), lambda e, s_, b, t: Seq(pk)),
+            (re.compile(r'^(std::vec::)?Vec<cargo_metadata::Target>$'), lambda e, s_, b, t: Seq([Opaque('cargo_metadata::Target', re.sub(r'!\d+$', '', b) + '.t%d' % j) for j in range(2)])),
+            (re.compile(r'Utf8PathBuf$'), stable_path),
+        ]
+        meta = Opaque('cargo_metadata::Metadata', 'meta')
+        eng.stub(r'^get_cargo_metadata$', lambda e, s_, a, c: Enum('Result', 0, {0: Tup([meta])}), '`cargo metadata --no-deps` = harness result with k packages of two targets each')
+
+        def pb_from(e, s_, a, c):
+            v = deref(e, s_, a[0])
+            s_.trace.append(('pathbuf_from', v))
+            return v
+        eng.stub(r'^<PathBuf as From<&Utf8PathBuf>>::from$', pb_from, 'PathBuf::from(&Utf8PathBuf) = the same path value (observed)')
+        eng.stub(r'Path::canonicalize$', lambda e, s_, a, c: Enum('Result', 0, {0: Tup([deref(e, s_, a[0])])}), 'Path::canonicalize = Ok(identity): paths are canonical and exist')
+        eng.stub(r'Result::<PathBuf, std::io::Error>::unwrap_or_default$', lambda e, s_, a, c: a[0].payloads[0].items[0], 'unwrap_or_default of that Ok')
+        cwd = StrVal(e=z3.Const('cwd', StrSort))
+        J = StrVal(e=z3.Const('cwd/Cargo.toml', StrSort))
+        eng.stub(r'^current_dir$|env::current_dir$', lambda e, s_, a, c: Enum('Result', 0, {0: Tup([cwd])}), 'env::current_dir = Ok(cwd) (symbolic)')
+        eng.stub(r'Path::join::<&str>$', lambda e, s_, a, c: J, 'cwd.join("Cargo.toml") = a path value of its own')
+        eng.stub(r'^<PathBuf as PartialEq(<&Path>)?>::eq$', lambda e, s_, a, c: str_expr(deref(e, s_, a[0])) == str_expr(deref(e, s_, a[1])), 'PathBuf == = equality of path values')
+        eng.stub(r'<PathBuf as Deref>::deref$', lambda e, s_, a, c: a[0], 'PathBuf deref')
+
+        def from_target(e, s_, a, c):
+            t = deref(e, s_, a[0])
+            s_.trace.append(('selected', t))
+            return Opaque('Target', 'sel')
+        eng.stub(r'Target::from_target$', from_target, 'Target::from_target observed')
+        eng.stub(r'BTreeSet::<Target>::insert$', lambda e, s_, a, c: z3.BoolVal(True), 'BTreeSet::insert (identity of targets is decided in the Target part)')
+        try:
+            outs = ctx.check_outcomes(eng.run(name, [NONE, eng.ref_to(st, Opaque('BTreeSet', 'targets'), True)], st), 'get_targets_root_only')
+        finally:
+            eng.type_models = []
+        log('[C18] get_targets_root_only with %d packages: %d paths' % (k, len(outs)))
+        declined = eng.stats.get('summaries_declined') or {}
+        if any('collect' in k_ or 'filter' in k_ or 'flat_map' in k_ for k_ in declined):
+            raise Inconclusive('get_targets_root_only: an iterator summary did not apply (%s)' % list(declined.items())[:2])
+        for pi, o in enumerate(outs):
+            if o.kind != 'ret':
+                ctx.prop('root-only/k=%d/p%d/no-panic' % (k, pi), o.state.pc, z3.BoolVal(True), [], rp, twin=False)
+                continue
+            if o.value.concrete() != 0:
+                continue
+            sel = {str(t[1].ident) for t in o.state.trace if t[0] == 'selected' and isinstance(t[1], Opaque)}
+            mans = {}
+            for t in o.state.trace:
+                if t[0] == 'pathbuf_from' and isinstance(t[1], StrVal) and t[1].e is not None:
+                    m = re.match(r'path:lzpkg(\d+)\.', str(t[1].e))
+                    if m:
+                        mans[int(m.group(1))] = t[1].e
+            for i in range(k):
+                # the manifest of package i: read by the code on this path, or a path value of its own when the code never looked
+                mi = mans.get(i, z3.Const('path:pkg%d.manifest(unread)' % i, StrSort))
+                others = [mans.get(j, z3.Const('path:pkg%d.manifest(unread)' % j, StrSort)) for j in range(k) if j != i]
+                mine = [x for x in sel if x.startswith('lzpkg%d.' % i)]
+                all_mine = len(mine) == 2
+                # environment: manifests of different packages differ; if cwd/Cargo.toml is a package manifest, cargo picks it (M = it)
+                M = mi                                 # case: package i is the current package
+                env_ok = [mi != o_ for o_ in others] + [z3.Implies(J.e == o_, z3.BoolVal(False)) for o_ in others]
+                cls = [(KF_SUBDIR, z3.And(z3.BoolVal(k > 1), J.e != mi))]
+                ctx.prop('root-only/k=%d/p%d/current-package=%d/all-its-targets-are-selected' % (k, pi, i), o.state.pc + env_ok, z3.BoolVal(not all_mine), [], rp, classes=cls, twin=False)
+    eng.stubs = []
+    eng.lenient = False
+    eng.inline_only = None
+
 
 def str_sort():
     from mirsym.engine import StrSort
@@ -206,6 +297,34 @@ def cli_findings():
         r, calls = run(ed, 'kill')
         if r.returncode == 0:
             found.setdefault('C18/run_rustfmt/child-killed-by-signal-is-success', []).append('rustfmt for edition %s killed by SIGKILL but cargo-fmt exits 0' % ed)
+    # target selection from different working directories (no -p / --all)
+    single = os.path.join(d, 'single')
+    os.makedirs(os.path.join(single, 'src', 'bin'))
+    open(os.path.join(single, 'Cargo.toml'), 'w').write('[package]\nname = "single"\nversion = "0.1.0"\nedition = "2021"\n[workspace]\n')
+    open(os.path.join(single, 'src', 'lib.rs'), 'w').write('pub fn f() {}\n')
+    open(os.path.join(single, 'src', 'bin', 'tool.rs'), 'w').write('fn main() {}\n')
+
+    def run_in(cwd):
+        if os.path.exists(log_path):
+            os.remove(log_path)
+        env = run_env()
+        env.update({'RUSTFMT': standin, 'FAIL_ED': 'none', 'FAIL_HOW': '0', 'CARGO_NET_OFFLINE': 'true'})
+        r = subprocess.run([cf], capture_output=True, text=True, env=env, timeout=120, cwd=cwd)
+        calls = open(log_path).read().split() if os.path.exists(log_path) else []
+        return r, sorted(c for c in calls if c.endswith('.rs'))
+    want = sorted([os.path.join(single, 'src', 'lib.rs'), os.path.join(single, 'src', 'bin', 'tool.rs')])
+    for sub in ('.', 'src', os.path.join('src', 'bin')):
+        r, files = run_in(os.path.join(single, sub))
+        if r.returncode != 0 or files != want:
+            found.setdefault('other', []).append('single package, cwd=%s: exit %d, files %r, expected %r' % (sub, r.returncode, [os.path.relpath(f, single) for f in files], [os.path.relpath(f, single) for f in want]))
+    want_a = [os.path.join(d, 'a', 'src', 'lib.rs')]
+    r, files = run_in(os.path.join(d, 'a'))
+    if r.returncode != 0 or files != want_a:
+        found.setdefault('other', []).append('workspace member a, cwd=a: exit %d, files %r' % (r.returncode, files))
+    r, files = run_in(os.path.join(d, 'a', 'src'))
+    if r.returncode != 0 or files != want_a:
+        found.setdefault('C18/get_targets_root_only/member-subdirectory-in-a-multi-package-workspace-finds-no-targets', []).append(
+            'workspace of three members, cwd=a/src: exit %d (%s), files passed to rustfmt %r, expected a/src/lib.rs' % (r.returncode, r.stderr.strip().split('\n')[0][:60], files))
     shutil.rmtree(d, ignore_errors=True)
     return found
 
